@@ -23,6 +23,18 @@ class Boom(Exception):
     pass
 
 
+class BaseBoom(BaseException):
+    """a BaseException that is not an Exception (like KeyboardInterrupt, SystemExit, GeneratorExit, asyncio.CancelledError)"""
+
+
+def make_base(kind):
+    import asyncio
+    e = {"base": BaseBoom, "keyboard": KeyboardInterrupt, "system_exit": SystemExit, "generator_exit": GeneratorExit,
+         "cancelled": asyncio.CancelledError}[kind]()
+    e._c13 = True      # so that the harness only swallows its own
+    return e
+
+
 class GMod(nn.Module):
     """forward = x + sum over the attribute names registered at build time of coef*value, + the kids"""
 
@@ -39,6 +51,13 @@ class GMod(nn.Module):
             if kid is not None:
                 out = out + kid(x)
         return out
+
+
+class GModCustom(GMod):
+    """the same module with a class-level __setattr__ override: `_to_module` takes its other branch (torch swap_tensor / setattr)"""
+
+    def __setattr__(self, name, value):
+        super().__setattr__(name, value)
 
 
 class World:
@@ -69,6 +88,13 @@ class World:
             self.rev[id(obj)] = t
             self.kinds[t] = "p" if isinstance(obj, nn.Parameter) else "t"
         return t
+
+    def tid_by_storage(self, obj):
+        """a detached view of one of the harness tensors: found by its storage; reported as a plain tensor"""
+        for t, o in self.objs.items():
+            if t < 900000 and o.data_ptr() == obj.data_ptr():
+                return t
+        return self.tid_of(obj)
 
     def fresh(self, kind):
         tid = max([0] + [t for t in self.kinds if t < 900000]) + 1
@@ -111,7 +137,7 @@ def gen_graph(rng, max_mods=5):
         for _ in range(rng.choice([0, 0, 0, 1])):
             nm = names.pop()
             plain.append((nm, pick("t", 0.15)))
-        mods.append({"params": params, "buffers": buffers, "plain": plain, "kids": []})
+        mods.append({"params": params, "buffers": buffers, "plain": plain, "kids": [], "custom": rng.random() < 0.3})
     # every module j>0 gets a parent with a smaller index; extra edges give shared submodules
     for j in range(1, n):
         par = rng.randrange(0, j)
@@ -205,7 +231,11 @@ def gen_prog(rng, graph, world, depth=0, max_depth=3):
         if r < 0.3:
             out.append("nop")
         elif r < 0.45:
-            out.append(("raise", rng.choice(["direct", "direct", "forward", "pre_hook", "after_forward"])))
+            how = rng.choice(["direct", "direct", "forward", "pre_hook", "after_forward"])
+            if rng.random() < 0.35:
+                out.append(("raise_base", how, rng.choice(["base", "keyboard", "system_exit", "generator_exit", "cancelled"])))
+            else:
+                out.append(("raise", how))
         elif r < 0.85 and depth < max_depth:
             m = rng.randrange(0, len(graph["mods"]))
             tree = gen_tree(rng, graph, world, m)
@@ -232,7 +262,9 @@ def graph_sx(graph, world):
         bs = " ".join(ent_sx(world, n, t) for n, t, _ in md["buffers"])
         ds = " ".join(ent_sx(world, n, t) for n, t in md["plain"])
         ks = " ".join(f"({n} {'none' if k is None else k})" for n, k in md["kids"])
-        parts.append(f"(mod (params{' ' if ps else ''}{ps}) (buffers{' ' if bs else ''}{bs}) (plain{' ' if ds else ''}{ds}) (kids{' ' if ks else ''}{ks}))")
+        nps = " ".join(n for n, t, pers in md["buffers"] if not pers)
+        parts.append(f"(mod (params{' ' if ps else ''}{ps}) (buffers{' ' if bs else ''}{bs}) (plain{' ' if ds else ''}{ds}) (kids{' ' if ks else ''}{ks})"
+                     f"{' (np ' + nps + ')' if nps else ''}{' custom' if md.get('custom') else ''})")
     return "(mods " + " ".join(parts) + ")"
 
 
@@ -251,6 +283,8 @@ def prog_sx(prog, world):
             return "nop"
         if st[0] == "raise":
             return "raise"
+        if st[0] == "raise_base":
+            return "raiseb"
         if st[0] == "block":
             body = " ".join(one(s) for s in st[3])
             head = "blockt" if len(st) > 4 and st[4] else "block"
@@ -262,7 +296,7 @@ def prog_sx(prog, world):
 
 # --------------------------------------------------------------------------- the real thing
 def build(graph, world):
-    mods = [GMod() for _ in graph["mods"]]
+    mods = [GModCustom() if md.get("custom") else GMod() for md in graph["mods"]]
     cell = 0
     for i in reversed(range(len(mods))):
         md, m = graph["mods"][i], mods[i]
@@ -289,14 +323,16 @@ def make_td(tree, world):
     return TensorDict(conv(tree), batch_size=[])
 
 
-def td_tree(td, world):
-    """read a tensordict back as a protocol tree (parsed form)"""
+def td_tree(td, world, detached=False):
+    """read a tensordict back as a protocol tree (parsed form); detached=True: leaves are detached views, identified by storage"""
     from tensordict.base import TensorDictBase
     out = ["td"]
     for k, v in td.items():
         if isinstance(v, TensorDictBase):
-            sub = td_tree(v, world)
+            sub = td_tree(v, world, detached)
             out.append([k, ["node"] + sub[1:]])
+        elif detached:
+            out.append([k, ["leaf", world.tid_by_storage(v), "p" if isinstance(v, nn.Parameter) else "t"]])
         else:
             t = world.tid_of(v)
             out.append([k, ["leaf", t, world.kinds[t]]])
@@ -353,24 +389,27 @@ def run_prog(prog, mods, tds, swaps, x):
     for st in prog:
         if st == "nop":
             root(x)
-        elif st[0] == "raise":
+        elif st[0] in ("raise", "raise_base"):
             how = st[1]
+
+            def exc():
+                return Boom() if st[0] == "raise" else make_base(st[2])
             if how == "direct":
-                raise Boom()
+                raise exc()
             if how == "after_forward":
                 root(x)
-                raise Boom()
+                raise exc()
             subs = [m for m in root.modules()]
             target = subs[len(subs) // 2]
 
             def hook(*a, **k):
-                raise Boom()
+                raise exc()
             h = target.register_forward_hook(hook) if how == "forward" else target.register_forward_pre_hook(hook)
             try:
                 root(x)
             finally:
                 h.remove()
-            raise Boom()  # (the hook did not fire: target not reached) still raise
+            raise exc()  # (the hook did not fire: target not reached) still raise
         elif st[0] == "block":
             temp = st[4] if len(st) > 4 else None
             holder = [tds.pop(0)]
@@ -401,7 +440,7 @@ def run_prog(prog, mods, tds, swaps, x):
 def count_blocks(prog):
     n = 0
     for st in prog:
-        if st == "nop" or st[0] == "raise":
+        if st == "nop" or st[0] in ("raise", "raise_base"):
             continue
         if st[0] == "block":
             n += 1 + count_blocks(st[3])
@@ -413,7 +452,7 @@ def count_blocks(prog):
 def prog_trees(prog):
     out = []
     for st in prog:
-        if st == "nop" or st[0] == "raise":
+        if st == "nop" or st[0] in ("raise", "raise_base"):
             continue
         if st[0] == "block":
             out.append(st[1])
@@ -454,11 +493,12 @@ def graph_from_sx(text):
         kinds[int(e[1])] = str(e[2])
         return (str(e[0]), int(e[1]))
     for m in g[1:]:
-        parts = {p[0]: p[1:] for p in m[1:]}
+        parts = {p[0]: p[1:] for p in m[1:] if isinstance(p, list)}
         mods.append({"params": [ent(e) for e in parts["params"]],
-                     "buffers": [ent(e) + (True,) for e in parts["buffers"]],
+                     "buffers": [ent(e) + (str(e[0]) not in [str(x) for x in parts.get("np", [])],) for e in parts["buffers"]],
                      "plain": [ent(e) for e in parts["plain"]],
-                     "kids": [(str(k[0]), None if k[1] == "none" else int(k[1])) for k in parts["kids"]]})
+                     "kids": [(str(k[0]), None if k[1] == "none" else int(k[1])) for k in parts["kids"]],
+                     "custom": "custom" in m})
     return {"mods": mods, "kinds": kinds}
 
 
@@ -486,6 +526,8 @@ def prog_from_sx(text, kinds):
             return "nop"
         if s == "raise":
             return ("raise", "direct")
+        if s == "raiseb":
+            return ("raise_base", "direct", "base")
         if s[0] in ("block", "blockt"):
             return ("block", tree_from_parsed(s[1], kinds), int(s[2]), [stmt(x) for x in s[3:]], "inline" if s[0] == "blockt" else None)
         return ("try", [stmt(x) for x in s[1:]])
